@@ -362,7 +362,7 @@ theorem skel_gdefWrite (a : Bool) (items : List Nat) (g : Nat) (f : File) : skel
 theorem skel_step {s : Step} {f o : File} (h : step s f = .ok o) : skel o = skel f := by
   cases s with
   | writer w => exact skel_write h
-  | gdef a items g => simp [step] at h; rw [← h]; exact skel_gdefWrite a items g f
+  | gdef i => simp [step] at h; rw [← h]; exact skel_gdefWrite _ _ _ f
 
 /-- **C17_subsequence**: for any feature file and any sequence of writers, after every writer the file - with generated
 statements, comments inside feature blocks (the markers are such) and the boundaries of split-made blocks erased - reads
@@ -1544,8 +1544,175 @@ theorem C17_gdef (a : Bool) (items : List Nat) (g : Nat) (f : File) :
   have : ftoks (gdefWrite a items g f) = ftoks f := h.1
   simp [this]
 
+/-! ## the GDEF writer -/
+
+/-- the scan of the user's table, without its early exit: a feature stays to do iff no statement of its kind is there -/
+theorem gdefScan_eq (ks : List GKind) (t : GTodo) :
+    gdefScan ks t = ⟨t.classDefs && !ks.contains .glyphClassDef, t.carets && !ks.any isCaretKind⟩ := by
+  induction ks generalizing t with
+  | nil => simp [gdefScan]
+  | cons k l ih =>
+    obtain ⟨a, b⟩ := t
+    cases k <;> simp only [gdefScan] <;> split <;> simp_all [isCaretKind]
+
+theorem gdefWrite_nil (items : List Nat) (g : Nat) : gdefWrite true items g [] = [.gen (.other g)] := by
+  simp [gdefWrite]
+
+theorem gdefWrite_cons_table (items : List Nat) (g : Nat) (o : Origin) (ext : Bool) (body : List Item) (l : File) :
+    gdefWrite true items g (.block o .table "GDEF" ext body :: l) =
+      .block o .table "GDEF" ext (body ++ items.map Item.gen) :: l := by
+  simp [gdefWrite, findIdx?_cons, isGdefTable]
+
+theorem gdefWrite_cons_other (items : List Nat) (g : Nat) (s : Stmt) (l : File) (h : isGdefTable s = false) :
+    gdefWrite true items g (s :: l) = s :: gdefWrite true items g l := by
+  simp only [gdefWrite, Bool.not_true, Bool.false_eq_true, ↓reduceIte, findIdx?_cons, h]
+  cases hl : findIdx? isGdefTable l with
+  | none => simp
+  | some p =>
+    simp only [Option.map_some, getElem?_cons_succ]
+    cases hp : l[p]? with
+    | none => simp
+    | some x => cases x <;> simp
+
+theorem isGdefTable_iff (s : Stmt) :
+    isGdefTable s = true ↔ ∃ o ext body, s = .block o .table "GDEF" ext body := by
+  cases s with
+  | block o k tag ext body =>
+    simp only [isGdefTable, Bool.and_eq_true, beq_iff_eq]
+    constructor
+    · rintro ⟨rfl, rfl⟩; exact ⟨o, ext, body, rfl⟩
+    · rintro ⟨o', ext', body', h⟩; injection h with _ h2 h3; exact ⟨h2, h3⟩
+  | _ => simp [isGdefTable]
+
+/-- the model's `findTable` is the spec's "first `table GDEF` of the file" -/
+theorem findGdefTable_eq (f : File) : findGdefTable f = userGdef f := by
+  induction f with
+  | nil => rfl
+  | cons s l ih =>
+    by_cases h : isGdefTable s = true
+    · obtain ⟨o, ext, body, rfl⟩ := (isGdefTable_iff s).1 h
+      simp [findGdefTable, userGdef, isGdefTable]
+    · have h' : isGdefTable s = false := by simpa using h
+      have e1 : findGdefTable (s :: l) = findGdefTable l := by simp [findGdefTable, h']
+      rw [e1, ih]
+      unfold userGdef
+      rw [findSome?_cons]
+      cases s with
+      | block o k tag ext body =>
+        cases k <;> simp_all [isGdefTable]
+      | _ => rfl
+
+theorem userGdef_cons_other (s : Stmt) (l : File) (h : isGdefTable s = false) : userGdef (s :: l) = userGdef l := by
+  rw [← findGdefTable_eq, ← findGdefTable_eq]; simp [findGdefTable, h]
+
+theorem gdefTodo_eq (i : GdefIn) (f : File) :
+    gdefTodo i f =
+      let user := ((userGdef f).getD []).map (itemKind i.kinds)
+      ⟨!user.contains .glyphClassDef && i.hasCats, !user.any isCaretKind && i.carets != 0⟩ := by
+  unfold gdefTodo
+  rw [findGdefTable_eq]
+  cases userGdef f with
+  | none => simp
+  | some body => simp [gdefScan_eq]
+
+theorem count_replicate_ne {a b : GKind} (n : Nat) (h : a ≠ b) : (List.replicate n a).count b = 0 := by
+  simp [List.count_replicate, h]
+
+/-- **C17_gdef_gen**: what the GDEF writer generates is what the property allows: a GlyphClassDef exactly when the
+user's `table GDEF` (if any) has none and the font has categories, one LigatureCaretByPos per glyph with caret anchors
+exactly when the user's table has no ligature caret statement of either form, nothing else. -/
+theorem C17_gdef_gen (i : GdefIn) (f : File) : holdsGdefGen i f (gdefGenOf i f) = true := by
+  unfold holdsGdefGen gdefGenOf gdefGen
+  rw [gdefTodo_eq]
+  simp only
+  generalize ((userGdef f).getD []).map (itemKind i.kinds) = user
+  by_cases h1 : GKind.glyphClassDef ∈ user <;> by_cases h2 : user.any isCaretKind = true <;>
+    by_cases h3 : i.hasCats = true <;> by_cases h4 : i.carets = 0 <;>
+    simp [h1, h2, h3, h4, List.count_replicate]
+
+/-- the number of generated statements is the number the property asks for -/
+theorem gdefGen_length (i : GdefIn) (f : File) : (gdefGenOf i f).length = specGdefCount i f := by
+  unfold specGdefCount gdefGenOf gdefGen
+  rw [gdefTodo_eq]
+  simp only
+  generalize ((userGdef f).getD []).map (itemKind i.kinds) = user
+  by_cases h1 : GKind.glyphClassDef ∈ user <;> by_cases h2 : user.any isCaretKind = true <;>
+    by_cases h3 : i.hasCats = true <;> by_cases h4 : i.carets = 0 <;> simp [h1, h2, h3, h4] <;> omega
+
+theorem all_gen_items (items : List Nat) : (items.map Item.gen).all (fun it => !notGen it) = true := by
+  induction items with
+  | nil => rfl
+  | cons a l ih => simp [notGen]
+
+/-- **C17_gdef_place**: the generated statements stand at the end of the user's `table GDEF` - whose own statements
+keep their places - or, if the user wrote no such table, in one new statement at the end of the file. -/
+theorem C17_gdef_place (items : List Nat) (g : Nat) (f : File) (n : Nat) (hn : items.length = n) :
+    holdsGdefPlace f n (gdefWrite (n != 0) items g f) = true := by
+  unfold holdsGdefPlace
+  by_cases h0 : n = 0
+  · subst h0; simp [gdefWrite]
+  · have hb : (n != 0) = true := by simpa using h0
+    have hne : (n == 0) = false := by simpa using h0
+    rw [hb, hne]
+    simp only [Bool.false_eq_true, ↓reduceIte]
+    induction f with
+    | nil => simp [userGdef, gdefWrite_nil]
+    | cons s l ih =>
+      by_cases h : isGdefTable s = true
+      · obtain ⟨o, ext, body, rfl⟩ := (isGdefTable_iff s).1 h
+        rw [gdefWrite_cons_table]
+        simp [userGdef, hn, notGen]
+      · have h' : isGdefTable s = false := by simpa using h
+        rw [gdefWrite_cons_other _ _ _ _ h', userGdef_cons_other _ _ h']
+        cases hu : userGdef l with
+        | some body =>
+          rw [hu] at ih
+          simp only [userGdef_cons_other _ _ h', length_cons] at ih ⊢
+          simpa using ih
+        | none =>
+          rw [hu] at ih
+          simp only [Bool.and_eq_true, beq_iff_eq] at ih ⊢
+          obtain ⟨⟨h1, h2⟩, h3⟩ := ih
+          refine ⟨⟨by simp [h1], by simp [h2]⟩, ?_⟩
+          cases hg : gdefWrite true items g l with
+          | nil => rw [hg] at h1; simp at h1
+          | cons a t => rw [hg] at h3; simpa [getLast?_cons_cons] using h3
+
+/-- hand-written ligature carets - by position or by contour point index - are not generated a second time -/
+theorem C17_gdef_keeps_carets (i : GdefIn) (f : File)
+    (h : (((userGdef f).getD []).map (itemKind i.kinds)).any isCaretKind = true) :
+    GKind.caretByPos ∉ gdefGenOf i f := by
+  have hg := C17_gdef_gen i f
+  unfold holdsGdefGen at hg
+  simp only [h, ↓reduceIte, Bool.and_eq_true, beq_iff_eq] at hg
+  exact count_eq_zero.1 hg.1.2
+
+/-- hand-written glyph classes are not generated a second time -/
+theorem C17_gdef_keeps_classes (i : GdefIn) (f : File)
+    (h : GKind.glyphClassDef ∈ ((userGdef f).getD []).map (itemKind i.kinds)) :
+    GKind.glyphClassDef ∉ gdefGenOf i f := by
+  have hg := C17_gdef_gen i f
+  unfold holdsGdefGen at hg
+  have hc : (((userGdef f).getD []).map (itemKind i.kinds)).contains GKind.glyphClassDef = true := by simpa using h
+  simp only [hc, Bool.not_true, Bool.false_and, Bool.false_eq_true, ↓reduceIte, Bool.and_eq_true, beq_iff_eq] at hg
+  exact count_eq_zero.1 hg.1.1
+
+/-- **C17_gdef_step**: the GDEF writer leaves the user's statements and all feature blocks as they are, and adds
+exactly the number of statements the property asks for, at the end of the user's table or in a new one. -/
+theorem C17_gdef_step (i : GdefIn) (f : File) :
+    holdsStep (.gdef i) f (gdefStep i f) = true ∧ uidsOf (gdefStep i f) = uidsOf f := by
+  unfold gdefStep
+  have h := C17_gdef (!(gdefGenOf i f).isEmpty) ((List.range (gdefGenOf i f).length).map (fun k => i.base + 1 + k)) (i.base + 1) f
+  refine ⟨?_, h.2⟩
+  simp only [holdsStep, h.1, Bool.true_and]
+  have hp := C17_gdef_place ((List.range (gdefGenOf i f).length).map (fun k => i.base + 1 + k)) (i.base + 1) f
+    (specGdefCount i f) (by simp [gdefGen_length])
+  have he : (!(gdefGenOf i f).isEmpty) = (specGdefCount i f != 0) := by
+    rw [← gdefGen_length]; cases gdefGenOf i f <;> simp
+  rw [he]; exact hp
+
 /-- **C17_run**: for a well-formed user file and any sequence of (well-formed) writers, every step satisfies the
-per-writer property (`holdsWrite` / `holdsGdef`, evaluated between the file before and after that writer), and the user's
+per-writer property (`holdsWrite` / `holdsGdef` + `holdsGdefPlace`, evaluated between the file before and after that writer), and the user's
 statements after every step are those of the original file. -/
 theorem C17_run (steps : List Step) (f : File) (outs : List File)
     (hw : ∀ s ∈ steps, match s with | .writer w => wfWriter w = true | .gdef .. => True)
@@ -1572,10 +1739,10 @@ theorem C17_run (steps : List Step) (f : File) (outs : List File)
             | writer w =>
               have hww : wfWriter w = true := hw (.writer w) (by simp)
               exact ⟨C17_write w f f' hww hf hs, decide_eq_true ((uids_write hn hs).nodup hn)⟩
-            | gdef a items g =>
+            | gdef i =>
               simp only [step, Except.ok.injEq] at hs
               subst hs
-              have := C17_gdef a items g f
+              have := C17_gdef_step i f
               exact ⟨this.1, decide_eq_true (by have h2 := this.2; unfold uidsOf at h2; rw [h2]; exact hn)⟩
           simp only [holdsRun, hstep.1, Bool.true_and]
           exact ih f' l (fun s hs => hw s (by simp [hs])) hstep.2 hl
@@ -1622,7 +1789,22 @@ example : write exW [.leaf 1, .block (.user 2) .feature "dist" false [.comment 4
            .block (.user 2) .feature "dist" false [.leaf 5], .leaf 6] := by rfl
 /-- the same tag handed to `_insert` twice: the second `block.statements.index(comment)` raises -/
 example : write { exW with produce := [⟨"kern", 10⟩, ⟨"kern", 12⟩] } exF = .error .valueError := by rfl
-example : holdsRun [.writer exW, .gdef true [40] 41] exF [exO, exO ++ [.gen (.other 41)]] = true := by decide
+example : holdsRun [.writer exW, .gdef ⟨[], true, 1, 40⟩] exF [exO, exO ++ [.gen (.other 41)]] = true := by decide
+
+/-- `table GDEF { GlyphClassDef …; LigatureCaretByIndex f_i 2; } GDEF;` on a font with categories and one glyph with a
+caret anchor: nothing is left to generate -/
+def exG : File := [.leaf 1, .block (.user 2) .table "GDEF" false [.leaf 3, .leaf 4]]
+def exGi : GdefIn := ⟨[(3, .glyphClassDef), (4, .caretByIndex)], true, 1, 40⟩
+example : gdefStep exGi exG = exG := by decide
+example : holdsGdefGen exGi exG [] = true := by decide
+/-- a caret by position added to a table whose carets are given by point index: refused, at both levels -/
+example : holdsGdefGen exGi exG [.caretByPos] = false := by decide
+example : holdsStep (.gdef exGi) exG [.leaf 1, .block (.user 2) .table "GDEF" false [.leaf 3, .leaf 4, .gen 41]] = false := by decide
+/-- only the glyph classes are hand-written: the caret is generated, inside the user's table -/
+example : gdefStep { exGi with kinds := [(3, .glyphClassDef)] } exG
+    = [.leaf 1, .block (.user 2) .table "GDEF" false [.leaf 3, .leaf 4, .gen 41]] := by decide
+/-- no table: both are generated in a new one at the end -/
+example : gdefStep exGi [.leaf 1] = [.leaf 1, .gen (.other 41)] ∧ gdefGenOf exGi [.leaf 1] = [.glyphClassDef, .caretByPos] := by decide
 
 
 end Ufo2ft.C17
